@@ -71,6 +71,14 @@ CHECKS = {
    text="TLC enumerates the division configurations (form x structure x ranks x eps x starting-tensor mode x seed) from spec/Configs.tla; q*y is compared densely with x (<= 50*eps_solver), operands (incl. an aliased or reused starting tensor) must be unchanged, x/scalar exact.",
    note="Exploration; divisors y = 1 + z*z bounded away from zero.",
    technique="TLC-enumerated configuration space + harness-measured q*y = x"),
+ "C14": dict(level=MC, design="§6 C14",
+   text="spec/Cross.tla models the index-set and rank bookkeeping of the two-site DMRG cross (supercore evaluation size, truncation, rank kick through a possibly wide QR, |Idx[k]| = rank[k]); TLC explores it exhaustively over small shapes and every truncation-rank choice (Conformable, IdxCovers). Every configuration from spec/Configs.tla is executed with the user function wrapped; each call is logged and the event lists are validated by TLC against spec/TraceCross.tla (rows explained by some admissible rank choice, d integer columns each in [0,N[k]); for function_interpolate every value row an actual entry of the argument tensors at one multi-index). Accuracy (<= 20*eps) is measured against the exact dense tensor.",
+   note="The index-range and bookkeeping statements are decided by TLC on the model and on every recorded trace; the accuracy statement is exploration-grade (measured on sampled seeds).",
+   technique="TLA+ bookkeeping model + TLC; recorded user-function calls validated by a TLC trace specification; measured accuracy"),
+ "C16": dict(level=EX, design="§6 C16",
+   text="spec/Manifold.tla is the equational theory of an orthogonal projector (linear, idempotent, fixes x) over terms in z, w, x with computed normal forms; TLC checks the laws on every enumerated term and base-point structure; each term is evaluated with the real routines and compared with its normal form, together with the scalar laws (self-adjoint, residual orthogonal), the rank law and riemannian_gradient = P(dense gradient) for three f.",
+   note="Exploration: floats, sampled vectors; the model decides which expressions must agree.",
+   technique="TLA+ equational theory with normal forms, TLC enumeration of terms, evaluation on torchtt against the normal form"),
 }
 
 NA = {}
